@@ -658,8 +658,6 @@ impl Gen {
         let mut big_left = 2u32;
         // one history in three is confined to two price levels: queues at a level get long, so queue ORDER (not only level totals) decides what happens next
         let span = if self.rng.gen_range(0..3) == 0 { 2u32 } else { 6u32 };
-        // snapshot-heavy histories (C07 searches): reload every few operations
-        let reload_from = if self.reload_heavy { 90 } else { 97 };      // at most two very large volumes per history: per-side resting volume and traded volume stay below 2^32
         let mut last_q: Option<(usize, u32)> = None;      // (id, price) of the order queued by the previous operation
         let mut created = 0usize;                          // exact number of orders that exist (what fix_ids computes), so that `last_q` names the right order
         for _ in 0..len {
@@ -711,12 +709,13 @@ impl Gen {
                 let p = if self.rng.gen_bool(0.5) { Some(if self.offgrid_modify && self.rng.gen_bool(0.3) { price + 1 } else { price }) } else { None };
                 let v = if self.rng.gen_bool(0.7) { Some(self.rng.gen_range(1..9)) } else { None };
                 if self.rng.gen_bool(0.5) { Op::Modify { id, price: p, vol: v } } else { Op::EventModify { id, price: p, vol: v } }
-            } else if r < 91 {
+            } else if r < 89 {
                 Op::Disable
-            } else if r < 95 {
+            } else if r < 91 {
                 Op::Enable
-            } else if r < reload_from {
-                Op::ResetTradeVol
+            } else if r < 93 || (r < 97 && !self.reload_heavy) {
+                // (in snapshot-heavy histories the slots 93..96 go to reloads; the counter reset keeps its share: a snapshot must restore the counter, not recompute it)
+                if r < 92 || r >= 95 { Op::ResetTradeVol } else { Op::Enable }
             } else if r < 99 {
                 Op::Reload
             } else {
